@@ -1,1 +1,4 @@
 import SmtpV.Props.C08
+#print axioms SmtpV.Props.C08.C08_lifecycle
+#print axioms SmtpV.Props.C08.C08_lifecycle_visible
+#print axioms SmtpV.Props.C08.C08_ends_closed
